@@ -118,12 +118,6 @@ def modifyRequest (env : Env) (s : Sim) (r : Request) : Outcome Sim :=
       | none => .error
       | some ix => .ok { s with requests := replaceById Request.id s.requests r, rIdx := ix }
 
-/-- `add_request_safe` -/
-def addRequest (env : Env) (s : Sim) (r : Request) : Outcome Sim :=
-  if !env.inFence r.pos.cell then .error
-  else .ok { s with requests := upsert Request.id s.requests r,
-                    rIdx := Index.add env.parent s.rIdx r.pos.cell r.id }
-
 /-- `remove_request` -/
 def removeRequest (env : Env) (s : Sim) (i : RequestId) : Outcome Sim :=
   match s.request? i with
@@ -132,6 +126,17 @@ def removeRequest (env : Env) (s : Sim) (i : RequestId) : Outcome Sim :=
     match Index.remove env.parent s.rIdx old.pos.cell i with
     | none => .error
     | some ix => .ok { s with requests := removeById Request.id s.requests i, rIdx := ix }
+
+/-- `add_request_safe`: a request id that is already present is removed first -/
+def addRequest (env : Env) (s : Sim) (r : Request) : Outcome Sim :=
+  if !env.inFence r.pos.cell then .error
+  else match s.request? r.id with
+    | none => .ok { s with requests := upsert Request.id s.requests r,
+                           rIdx := Index.add env.parent s.rIdx r.pos.cell r.id }
+    | some _ => do
+      let s1 ← s.removeRequest env r.id
+      pure { s1 with requests := upsert Request.id s1.requests r,
+                     rIdx := Index.add env.parent s1.rIdx r.pos.cell r.id }
 
 /-- `modify_station` (a moved station is refused) -/
 def modifyStation (env : Env) (s : Sim) (st : Station) : Outcome Sim :=
